@@ -187,6 +187,36 @@ theorem hsep_other_types (P : Prims) (sk fk tp : Bytes) (r : Recipient) (ss : Li
 /-- non-vacuity: the hypotheses on the primitives are satisfiable (together) -/
 example : Prims.toy.Correct ∧ Prims.toy.aead.NonceSep := ⟨Prims.toy_correct, AEAD.toy_nonceSep⟩
 
+/-- **End-to-end non-vacuity.** With the (lawful) toy primitives: a 100-byte tape, one
+    X25519 recipient, a 5-byte plaintext in chunks of 4: Encrypt produces a file, and the
+    recipient's identity decrypts it to the plaintext with a clean end — so the hypotheses
+    of `decrypt_encrypt` (and with them those of C03 `mac_gate`, C04 `reader_requires_key`,
+    C05 `file_layout`) are met by a concrete run. -/
+theorem nonvacuous_roundtrip :
+    ∃ file k payload, encryptFile Prims.toy 4 (List.replicate 100 7) [Recipient.x25519 (List.replicate 32 0)] [1, 2, 3, 4, 5] = .ok file ∧
+      decryptFile Prims.toy 4 [Identity.x25519 (List.replicate 32 2)] file = .ok ([1, 2, 3, 4, 5], .eof) ∧
+      decryptInit Prims.toy [Identity.x25519 (List.replicate 32 2)] file = (.ok (k, payload), 1) := by
+  have hok : (encryptFile Prims.toy 4 (List.replicate 100 7) [Recipient.x25519 (List.replicate 32 0)] [1, 2, 3, 4, 5]).isOk = true := by decide
+  cases henc : encryptFile Prims.toy 4 (List.replicate 100 7) [Recipient.x25519 (List.replicate 32 0)] [1, 2, 3, 4, 5] with
+  | error e => rw [henc] at hok; simp [Except.isOk, Except.toBool] at hok
+  | ok file =>
+    obtain ⟨fk, stanzas, t, hh, hdec⟩ := decrypt_encrypt Prims.toy Prims.toy_correct AEAD.toy_nonceSep 4 (by decide)
+      (List.replicate 100 7) [Recipient.x25519 (List.replicate 32 0)] [1, 2, 3, 4, 5] file
+      (by intro r hr; simp only [List.mem_singleton] at hr; subst hr; exact producesWF_x25519 _ Prims.toy_correct _) henc
+    have hid := x25519_identity_opens Prims.toy Prims.toy_correct (List.replicate 100 7) [] [] (List.replicate 32 2)
+      (List.replicate 32 0) fk stanzas t rfl hh (by intro r hr; simp at hr)
+    obtain ⟨h1, h2⟩ := hdec [] [] _ (by intro i hi; simp at hi) hid
+    simp only [List.nil_append, List.length_nil, Nat.zero_add] at h1 h2
+    unfold decryptFile at h1
+    cases hdi : decryptInit Prims.toy [Identity.x25519 (List.replicate 32 2)] file with
+    | mk r c =>
+      rw [hdi] at h1 h2
+      simp only at h2
+      subst h2
+      cases r with
+      | error e => simp at h1
+      | ok v => exact ⟨file, v.1, v.2, rfl, by unfold decryptFile; rw [hdi]; exact h1, by rw [hdi]⟩
+
 end Props.C01
 end AgeModel
 
